@@ -37,10 +37,11 @@ THEOREMS = [
     'C11.transform_is_tensor_rotation', 'C11.transform_id', 'C11.transform_comp', 'C11.transform_inv',
     'C11.transform_symm', 'C11.energy_invariant', 'C11.voigt_moduli_invariant', 'C11.reuss_moduli_invariant',
     'C11.hill_moduli_invariant', 'C11.compliance_transforms_as_tensor', 'C11.cij_setter_symm',
-    'C11.setter_roundtrips', 'C11.transform_is_rot', 'C11.system_invariant_isotropic',
-    'C11.system_invariant_cubic', 'C11.system_invariant_hexagonal', 'C11.system_invariant_tetragonal',
-    'C11.system_invariant_rhombohedral', 'C11.three_fold_proper', 'C11.system_invariant_orthorhombic',
-    'C11.system_invariant_monoclinic', 'C11.generators_proper', 'C11.hexagonal_inputs_agree',
+    'C11.setter_roundtrips', 'C11.cijkl_setter_complete', 'C11.transform_preserves_symmetry',
+    'C11.transform_is_rot', 'C11.system_invariant_isotropic', 'C11.system_invariant_cubic',
+    'C11.system_invariant_hexagonal', 'C11.system_invariant_tetragonal', 'C11.system_invariant_rhombohedral',
+    'C11.three_fold_proper', 'C11.system_invariant_orthorhombic', 'C11.system_invariant_monoclinic',
+    'C11.generators_proper', 'C11.invariance_group', 'C11.hexagonal_inputs_agree',
     'C11.rhombohedral_inputs_agree', 'C11.iso_range', 'C11.iso_pair_C11_C12', 'C11.iso_pair_C11_C44',
     'C11.iso_pair_C11_K', 'C11.iso_pair_C12_C44', 'C11.iso_pair_C12_K', 'C11.iso_pair_C44_K',
     'C11.iso_pair_C11_nu', 'C11.iso_pair_C44_nu', 'C11.iso_pair_E_nu', 'C11.iso_pair_nu_K',
@@ -49,7 +50,16 @@ THEOREMS = [
     'C11.normalized_idem_hexagonal', 'C11.normalized_idem_tetragonal', 'C11.normalized_idem_rhombohedral',
     'C11.normalized_idem_orthorhombic', 'C11.normalized_idem_isotropic', 'C11.is_normal_of_normalized',
 ]
-PARTIAL = {}
+PARTIAL = {
+    'transform_with_cleanups': 'transform_id/comp/inv, energy and moduli invariance and system_invariant_* are proved for '
+    'the exact tensor rotation `rot` (= the generated einsums); `transform_is_rot` states transform = axes_check, rot, '
+    'relative clean-up (|C/Cmax| < tol), Cijkl setter. With the 1e-8/1e-9 clean-ups the group laws hold on the '
+    'implementation only up to those thresholds: checked by the tie and the oracle (atol 2.5e-8*max), not a theorem',
+    'normalized_with_setter_cleanup': 'normalized_idem_* and is_normal_of_normalized are about the generated formulas, '
+    'before the zeroing of relatively tiny entries by the Cij setter',
+    'redundant_C66_within_isclose': 'a redundant C66 that differs from (C11-C12)/2 within np.isclose is accepted by the '
+    'code and stored as given; rhombohedral_inputs_agree / system_invariant_rhombohedral assume exact equality',
+}
 
 # ----------------------------------------------------------------------------------------
 # translator — helpers on the class AST
@@ -158,7 +168,11 @@ def _getter_table(fn, srcattr, var, shape):
     body = _body(fn)
     if len(body) < 2:
         raise TranslationError(f'{fn.name} getter: too short')
-    _expect(body[0], f'{var} = self.{srcattr}', f'{fn.name} getter')
+    st0 = body[0]
+    if not (isinstance(st0, ast.Assign) and len(st0.targets) == 1 and isinstance(st0.targets[0], ast.Name)
+            and ast.unparse(st0.value) == f'self.{srcattr}'):
+        raise TranslationError(f'{fn.name} getter: expected `<name> = self.{srcattr}`, found `{ast.unparse(st0)[:60]}`')
+    var = st0.targets[0].id          # the local name is free
     scal = []
     for st in body[1:-1]:
         scal.append(_slice_scale(st, var))
@@ -1760,20 +1774,20 @@ def search(ctx, broken):
     rng = random.Random(ctx.seed * 7919 + 11)
     big = 3 if broken else 1
     # ---- representations of one tensor ----------------------------------------------------
-    for it in range(ctx.n(25, 250) * big):
+    for it in range(ctx.n(60, 600) * big):
         if it % 3 == 0:
             C = _spd_dyadic(rng, 3, rng.choice([1.0, 16.0]))
         else:
             C = _spd_float(rng, rng.choice([1.0, 160.2176621, 1e-3]))
         _check_tensor_clauses(ctx, EC(Cij=C), {'Cij': C.tolist()}, 'random SPD')
     # ---- rotations ---------------------------------------------------------------------------
-    for it in range(ctx.n(12, 120) * big):
+    for it in range(ctx.n(40, 400) * big):
         C = _spd_float(rng, rng.choice([1.0, 160.2176621])) if it % 2 else _spd_dyadic(rng, 3)
         _check_rotation_clauses(ctx, EC(Cij=C), _rand_rotation(rng), _rand_rotation(rng), _rand_strain(rng),
                                 {'Cij': C.tolist()}, 'random SPD')
     # ---- crystal systems: representation clauses + invariance under the generating rotations ---------
     rots = _gen_rotations()
-    for it in range(ctx.n(3, 30) * big):
+    for it in range(ctx.n(8, 80) * big):
         for sysname, keys in SYS_KEYS.items():
             vals = _system_consts(rng, sysname)
             try:
@@ -1829,7 +1843,7 @@ def search(ctx, broken):
                     ctx.violate(f'is_normal:{target}', f'is_normal({target!r}) is False on a {sysname} tensor',
                                 {'op': 'system', **info})
     # ---- normalisation is idempotent on arbitrary tensors ------------------------------------------
-    for it in range(ctx.n(15, 150) * big):
+    for it in range(ctx.n(40, 400) * big):
         C = _spd_float(rng, rng.choice([1.0, 160.2176621])) if it % 2 else _spd_dyadic(rng, 3)
         ec = EC(Cij=C)
         cond = float(np.linalg.cond(C))
@@ -1854,7 +1868,7 @@ def search(ctx, broken):
     # ---- isotropic modulus pairs ---------------------------------------------------------------------
     names = ['C11', 'C12', 'C44', 'M', 'lambda', 'mu', 'E', 'nu', 'K']
     same = [{'C11', 'M'}, {'C12', 'lambda'}, {'C44', 'mu'}]
-    for it in range(ctx.n(12, 120) * big):
+    for it in range(ctx.n(24, 240) * big):
         if it % 4 == 0:
             lam, mu = Fraction(0), Fraction(rng.randint(1, 64), 8)            # nu = 0
         elif it % 4 == 1:
